@@ -121,6 +121,10 @@ def execute(pool, t):
         if t[1] == "B": return call(M.Bdd, "mk_literal", unhex(t[2]), t[3] == "1")
         raise Na()
     if ins == "csvin":
+        if t[1] == "missing":
+            d = tempfile.mkdtemp()
+            try: return call(M.Table, "from_csv_file", os.path.join(d, "does-not-exist.csv"))
+            finally: os.rmdir(d)
         text = unhex(t[2])
         if t[1] == "str": return call(M.Table, "from_csv_string", text)
         fd, path = tempfile.mkstemp(suffix=".csv")
